@@ -124,8 +124,11 @@ def _job(args):
                       and ref['size']['k'] == 'zero')
         want = (ref['safety'], sorted(ref['fails']))
         probs = []
-        for sched in scheds:
-            r = insp.run(fi.ALL_FORMATS[fmt], data, sched)
+        for si, sched in enumerate(scheds + [scheds[min(1, len(scheds) - 1)]]):
+            as_view = si == len(scheds)          # once more, as memoryviews of one reused buffer (a readinto() loop)
+            r = insp.run(fi.ALL_FORMATS[fmt], data, sched, as_view=as_view)
+            if as_view:
+                sched = {'memoryview_chunks_of': ri.describe(sched)}
             v = r['verdict']
             got = (v[0], sorted(v[4]))
             if got != want:
